@@ -267,13 +267,181 @@ fn run_far_repeats(rep: &mut Report, rng: &mut Rng, thorough: bool, sweep: bool)
     }
 }
 
+/// low-entropy data (four symbols): every 4-byte string has candidates all over the dictionary, also at the
+/// largest distances
+pub fn lowent_data(seed: u64, len: usize) -> Vec<u8> {
+    let mut x = seed | 1;
+    (0..len).map(|_| { x ^= x << 13; x ^= x >> 7; x ^= x << 17; b"abcd"[(x >> 30) as usize & 3] }).collect()
+}
+
+/// size of the LZMA2 writer's LZ window buffer (`get_buf_size`) and its `keep_size_after`
+fn lzma2_window(dict: usize, normal: bool) -> (usize, usize) {
+    let (eb, ea) = if normal { (4096usize, 4096usize) } else { (1, 272) };
+    let eb = eb.max(65536usize.saturating_sub(dict));
+    (dict + eb + ea + 273 + (dict / 2 + (256 << 10)), ea + 273)
+}
+
+/// "write k; flush; write rest" with k within `keep_size_after` of the window buffer's end: `flush` leaves up to
+/// `nice_len - 1` bytes pending in the match finder (BT4: `move_pos(nice_len, 4)`), the next `fill_window` moves the
+/// window first and then re-runs the match finder on the pending bytes, which looks `dict_size` bytes back from
+/// the FIRST of them.  Before the repair `fix: move_window keeps the history of the pending bytes` the move kept
+/// only `keep_size_before` bytes before `read_pos`: BT4 indexed before the buffer (panic; out-of-bounds read in the
+/// `optimization` build).  `prop` prefixes the failure ids (the stratum runs in the C01 and in the C07 engine).
+pub fn run_flush_window(rep: &mut Report, rng: &mut Rng, thorough: bool, sweep: bool, prop: &str) {
+    let n = if thorough { 60 } else if sweep { 40 } else { 10 };
+    for i in 0..n {
+        let mut r = rng.fork();
+        // (the first cases are the ones that showed the defect; then the neighbourhood)
+        let bt4 = i % 5 != 4;
+        let normal = i % 7 == 5;
+        let dict: usize = if i < 4 { 65536 } else { *r.pick(&[65536usize, 65536, 98304, 131072, 262144]) };
+        let nice: u32 = if i < 6 || !bt4 { 273 } else { *r.pick(&[273u32, 273, 200, 128, 64]) };
+        let (b, keep_after) = lzma2_window(dict, normal);
+        // the first flush happens with read_pos = k - 1 >= buf_size - keep_size_after: the next fill moves the window
+        let back = if i == 0 { 225 } else { r.range(0, keep_after as u64 - 1) as usize };
+        let k = b - back;
+        let tail = r.range(300, 6000) as usize;
+        let data = match i % 6 { 5 => gen_data(&mut r, "text", k + tail), 3 => far_repeat_data(&mut r, dict, k + tail), _ => lowent_data(r.next(), k + tail) };
+        // some cases flush earlier too / write the first k bytes in two pieces / flush twice in a row
+        let (parts, flush_after): (Vec<usize>, Vec<usize>) = match i % 4 {
+            0 => (vec![k, tail], vec![0]),
+            1 => { let a = r.range(1, k as u64 - 1) as usize; (vec![a, k - a, tail], vec![0, 1]) }
+            2 => { let a = r.range(1, k as u64 - 1) as usize; (vec![a, k - a, 1, tail - 1], vec![1, 2]) }
+            _ => (vec![k, 7, tail - 7], vec![0, 0, 1]),
+        };
+        let o = LzOpts { dict: dict as u32, lc: 3, lp: 0, pb: 2, normal, nice, bt4, depth: 0, preset: None };
+        let detail = || json!({"stratum": "flush-window", "format": "lzma2", "opts": o.json(), "window_buf_size": b, "first_flush_at": k, "parts": parts, "flush_after_part": flush_after, "data_len": data.len(), "data_kind": i % 6, "data_fnv": fnv(&data),
+            "replay": "LZMA2Writer: write the parts in order, call flush() after the listed part indices, finish(); decode with LZMA2Reader"});
+        rep.count("stratum.flush-window");
+        rep.evaluations += 1;
+        let res = guard(|| {
+            let opts = lzma_rust2::LZMA2Options { lzma_options: o.to_opts(), chunk_size: None };
+            let mut w = lzma_rust2::LZMA2Writer::new(Vec::new(), opts);
+            let mut off = 0;
+            for (pi, &n) in parts.iter().enumerate() {
+                std::io::Write::write_all(&mut w, &data[off..off + n])?;
+                off += n;
+                for _ in flush_after.iter().filter(|&&f| f == pi) {
+                    std::io::Write::flush(&mut w)?;
+                }
+            }
+            w.finish()
+        });
+        match res {
+            Outcome::Ok(c) => match lzma2_decompress(&c, o.dict, None, &[65536], data.len() + 16) {
+                Outcome::Ok((out, used)) if out == data && used == c.len() => {}
+                Outcome::Ok(_) => rep.fail(&format!("{prop}lzma2-roundtrip-flush-window"), "write k; flush; write rest (k at the end of the encoder window) does not round-trip: different data", detail()),
+                other => rep.fail(&format!("{prop}lzma2-roundtrip-flush-window"), &format!("write k; flush; write rest (k at the end of the encoder window) does not round-trip: {}", other.describe()), detail()),
+            },
+            other => rep.fail(&format!("{prop}lzma2-writer-{}-flush-window", other.class()), &format!("write k; flush; write rest (k at the end of the encoder window): writer: {}", other.describe()), detail()),
+        }
+        rep.case(format!("flush-window:{}:{normal}:{bt4}:{nice}:{}", dict_class(dict as u32), i % 4), true, || detail());
+    }
+}
+
+/// The encoder's LZ window itself: the real `LZEncoder` (hook `lz_window_script`) and the window model
+/// (`Model/EncWindow.lean`, request `encwin.script`) are driven by the same script of `fill_window` / `set_flushing` /
+/// `set_finishing` / `skip(1)` operations and must log the same `(read_pos, read_limit, write_pos, pending_size)`
+/// after every operation.  The scripts fill the window to within `keep_size_after` of its end, flush (pending bytes),
+/// and fill again (window move with pending bytes), several windows long.
+pub fn run_encwin_script(rep: &mut Report, rng: &mut Rng, thorough: bool, sweep: bool, prop: &str) {
+    let n = if thorough { 120 } else if sweep { 60 } else { 16 };
+    let data = lowent_data(0x5eed, 1 << 16);
+    for i in 0..n {
+        let mut r = rng.fork();
+        let bt4 = i % 3 != 2;
+        let normal = i % 4 == 3;
+        let dict: u32 = if i == 0 { 65536 } else { *r.pick(&[4096u32, 4096, 8192, 65536, 65536, 131072]) };
+        let nice: u32 = if i < 3 { 273 } else { *r.pick(&[273u32, 273, 128, 64, 8]) };
+        let lzma2 = i % 2 == 0;
+        let (eb, ea) = if normal { (4096u32, 4096u32) } else { (1, 272) };
+        let eb = if lzma2 { eb.max(65536u32.saturating_sub(dict)) } else { eb };
+        let keep_after = (ea + 273) as usize;
+        let b = (dict + eb) as usize + keep_after + (dict as usize / 2 + (256 << 10));
+        let big = 1u32 << 30;
+        let mut script: Vec<(u32, u32)> = Vec::new();
+        // position of write_pos inside the buffer as the script goes (only to aim the fills; the hook decides)
+        let windows = r.range(2, if thorough { 6 } else { 3 });
+        let mut wp = 0usize;
+        for w in 0..windows {
+            // fill up to `back` bytes before the end of the buffer, in one to three calls, coding in between
+            let back = if i == 0 && w == 0 { 225 } else if r.chance(1, 5) { 0 } else { r.range(0, keep_after as u64 + 80) as usize };
+            let target = b - back;
+            let mut need = target.saturating_sub(wp);
+            let pieces = r.range(1, 3);
+            for p in 0..pieces {
+                let k = if p + 1 == pieces { need } else { r.range(0, need as u64) as usize };
+                script.push((0, k as u32));
+                need -= k;
+                if r.chance(2, 3) { script.push((3, if r.chance(1, 4) { r.range(0, 5000) as u32 } else { big })); }
+            }
+            script.push((3, big));
+            if r.chance(5, 6) {
+                script.push((1, 0));
+                script.push((3, if r.chance(1, 6) { r.range(0, 400) as u32 } else { big }));
+                if r.chance(1, 4) { script.push((1, 0)); script.push((3, big)); }
+            }
+            // the next fill moves the window (if read_pos got far enough); small or large
+            let k = *r.pick(&[0u32, 1, 3, 100, 272, 273, 544, 545, 546, 5000, big]);
+            script.push((0, k));
+            script.push((3, big));
+            if r.chance(1, 3) { script.push((1, 0)); script.push((3, big)); script.push((0, r.range(0, 600) as u32)); script.push((3, big)); }
+            // where write_pos is now: unknown in general - continue from "at least the kept part"
+            wp = (dict + eb) as usize + 600;
+        }
+        script.push((2, 0));
+        script.push((3, big));
+        rep.count("stratum.encwin-script");
+        rep.evaluations += 1;
+        let sc = script.iter().map(|(o, k)| format!("{o}:{k}")).collect::<Vec<_>>().join(",");
+        let detail = || json!({"stratum": "encwin-script", "match_finder": if bt4 { "bt4" } else { "hc4" }, "dict": dict, "extra_size_before": eb, "extra_size_after": ea, "nice_len": nice, "window_buf_size": b, "script": sc,
+            "replay": "verif_hooks::lz_window_script(bt4, dict, eb, ea, nice, 273, 0, lowent_data(0x5eed, 65536), script)"});
+        let log = guard(|| Ok(lzma_rust2::verif_hooks::lz_window_script(bt4, dict, eb, ea, nice, 273, 0, &data, &script)));
+        match log {
+            Outcome::Ok(log) => {
+                let mut h: u32 = 2166136261;
+                let mut bad = None;
+                for (k, &(rp, rl, wpos, pend)) in log.iter().enumerate() {
+                    for x in [rp as u32, rl as u32, wpos as u32, pend] {
+                        h = (h ^ x).wrapping_mul(16777619);
+                    }
+                    // what every later buffer access relies on
+                    if rp < -1 || rp >= wpos || wpos as usize > b || (pend as i64) > rp as i64 + 1 {
+                        bad.get_or_insert(format!("after operation {k} ({:?}): read_pos {rp}, read_limit {rl}, write_pos {wpos}, pending_size {pend} (buffer {b})", script[k]));
+                    }
+                }
+                if let Some(m) = bad {
+                    rep.fail(&format!("{prop}encwin-positions-out-of-range"), &m, detail());
+                }
+                rep.model(
+                    format!("encwin.script dict={dict} eb={eb} ea={ea} nice={nice} mlmax=273 bt4={} ops={sc}", bt4 as u8),
+                    format!("ok {} {h} low=0", script.len()),
+                );
+            }
+            other => rep.fail(&format!("{prop}encwin-window-{}", other.class()), &format!("LZEncoder driven by a fill / flush / skip script: {}", other.describe()), detail()),
+        }
+        rep.case(format!("encwin-script:{}:{}:{nice}:{}", bt4 as u8, dict_class(dict), windows), true, || detail());
+    }
+}
+
 pub fn run(rep: &mut Report, rng: &mut Rng, thorough: bool) {
     // a search run (the check re-invokes the engine with seeds >= 1000 when a proof obligation or the
     // correspondence broke) sweeps the targeted strata completely
     let sweep = std::env::args().nth(3).and_then(|s| s.parse::<u64>().ok()).map(|s| s >= 1000).unwrap_or(false);
+    // VH_ONLY_ENCWIN=<rounds>: only the window-script correspondence, <rounds> times the thorough amount (for bulk
+    // validation of the window model outside ./check)
+    if let Some(rounds) = std::env::var("VH_ONLY_ENCWIN").ok().and_then(|s| s.parse::<u64>().ok()) {
+        for _ in 0..rounds {
+            run_encwin_script(rep, &mut rng.fork(), true, false, "");
+            run_flush_window(rep, &mut rng.fork(), false, false, "");
+        }
+        return;
+    }
     run_chunk_limit(rep, rng, thorough, sweep);
     run_dict_edge(rep, rng, thorough, sweep);
     run_far_repeats(rep, &mut rng.fork(), thorough, sweep);
+    run_flush_window(rep, &mut rng.fork(), thorough, sweep, "");
+    run_encwin_script(rep, &mut rng.fork(), thorough, sweep, "");
     crate::twin::run_mf(rep, &mut rng.fork(), thorough, sweep);
     crate::twin::run_mf_adv(rep, &mut rng.fork(), thorough, sweep);
     crate::twin::run_encfast(rep, &mut rng.fork(), thorough, sweep);
